@@ -252,3 +252,10 @@ Theorem C11_witness_lockdict_busy :
   lenabled ls_busy 1 = false /\ lenabled ls_busy 3 = false /\ lenabled ls_busy 2 = true.
 Proof. exact ex_ld_busy. Qed.
 Print Assumptions C11_witness_lockdict_busy.
+
+Theorem C11_witness_eventually_applies :
+  reachable s_reader_and_requester /\ readers_in_cs s_reader_and_requester = 1 /\
+  thr_at s_reader_and_requester 1 (Th A_Lock R 0 [] LNone) /\ requesting_pc A_Lock = true /\
+  not_excluded s_reader_and_requester 1 R /\ mutex (glob s_reader_and_requester) = None.
+Proof. exact ex_cond_eventually_applies. Qed.
+Print Assumptions C11_witness_eventually_applies.
